@@ -80,8 +80,9 @@ def serde_variant(rule, ident):
 
 
 def ts_pascal(s):
-    """typeshare's `to_pascal_case` (used by Go's acronym conversion), ASCII"""
-    to_lower = s.upper() == s
+    """typeshare's `to_pascal_case` (used by Go's acronym conversion), ASCII case mapping; the tail is lower-cased when the
+    name is "all uppercase" = has no lowercase letter of any script (`is_all_uppercase`, char::is_lowercase from Rust std)"""
+    to_lower = rust_all_uppercase(s)
     out, cap = [], True
     for ch in s:
         if ch == "_":
@@ -955,9 +956,11 @@ def unicode_names_part(check, gen):
     from Rust std).
     Scope notes.  (1) Under camelCase serde_derive slices the first *byte* off the identifier and panics when the first
     letter is outside ASCII (the user's crate does not compile): camelCase enums get identifiers with an ASCII first letter.
-    (2) Identifiers *without any ASCII lower-case letter* (`ΑλφαΒήτα`, `ÖßÉé`) are explored as a class of their own
-    (`unicode_allcaps_class`): typeshare's test "is the name all capitals" is ASCII-only and takes them for all-capitals
-    names."""
+    (2) Identifiers *without any ASCII lower-case letter* but with a lower-case letter of another script (`ΑλφαΒήτα`,
+    `ÖßÉé`) are explored as a class of their own (`unicode_allcaps_class`), with the same demands: before the fix "a name with
+    non-ASCII lowercase letters is not all uppercase" typeshare's test "is the name all capitals" was ASCII-only and took them
+    for all-capitals names.  Identifiers without any lower-case letter at all (`ΟΔΟΣ`, `Ж1Ω2`: all capitals, like `URL`) are
+    not UpperCamelCase; they belong to C16's open finding `allcaps-special-case`."""
     rng = random.Random(check.seed * 7919 + 17)
     RUST_UPPER.update({r[0]: r[1] for r in unicode_table(set("".join(UNI_CLASSES.values()) + "".join(UNI_WORDS)))})
     pool = uni_pool()
@@ -1010,21 +1013,22 @@ def unicode_names_part(check, gen):
 
 
 def unicode_allcaps_class(check, gen, rng):
-    """UpperCamelCase identifiers with no ASCII lower-case letter at all (Greek, Cyrillic, `ÖßÉé`, with or without ASCII
-    capitals and digits), under the eight rules, all six languages.  typeshare decides "the name is all capitals" (the
-    `URL` / `TOTP` special case of to_pascal_case / to_snake_case) with `to_ascii_uppercase() == name`, which holds for every
-    such identifier: the snake family then sets no `_` before the inner capitals and PascalCase / camelCase lower-case the
-    ASCII capitals of the tail, where serde does neither.  A wrong wire *name* in this class is recorded under the finding
-    id `%s` when KNOWN_FINDINGS.txt lists it as open, otherwise as a note of the run (the class is outside the conventional
-    identifiers the property quantifies over only by reading "UpperCamelCase" as ASCII); every other facet (keys, one case
-    per variant, recognisable declarations) and the comparison with the model are demanded as everywhere else."""
-    fixed = ["ΑλφαΒήτα", "ÖßÉé", "ЖукМир", "Éé", "ΩσΣς", "ÉéB", "ΟδόςA", "ǅöǲé", "İıİı", "Ж1Ω2", "ÑñA1Éé"]
+    """UpperCamelCase identifiers with no ASCII lower-case letter but at least one lower-case letter of another script
+    (Greek, Cyrillic, `ÖßÉé`, with or without ASCII capitals and digits; "lower-case" = `char::is_lowercase` of Rust std,
+    through the runner), under the eight rules, all six languages.  This is the class of the repaired defect `%s`: typeshare
+    decided "the name is all capitals" (the `URL` / `TOTP` special case of to_pascal_case / to_snake_case) with
+    `to_ascii_uppercase() == name`, which holds for every such identifier - the snake family then set no `_` before the inner
+    capitals and PascalCase / camelCase lower-cased the ASCII capitals of the tail, where serde does neither.  Since the fix
+    the test is "no lower-case letter of any script", and the class is demanded like every other: serde's wire names, the
+    keys, one case per variant, recognisable declarations, and the byte-exact comparison with the model.  (Identifiers with
+    no lower-case letter whatsoever really are all capitals and stay out, as `URL` does in the ASCII parts.)"""
+    fixed = ["ΑλφαΒήτα", "ÖßÉé", "ЖукМир", "Éé", "ΩσΣς", "ÉéB", "ΟδόςA", "ǅöǲé", "İıİı", "Жσ1Ω2", "ÑñA1Éé"]
     cases, pairs = [], []
     for rule in RULES:
         idents, seen = list(fixed), set(fixed)
         while len(idents) < len(fixed) + (40 if check.thorough else 8):
             w = uni_random_ident(rng, ascii_first=False, ascii_lower_letter=False)
-            if w not in seen and not re.search("[a-z]", w):
+            if w not in seen and not re.search("[a-z]", w) and not rust_all_uppercase(w):
                 seen.add(w)
                 idents.append(w)
         if rule == "camelCase":
@@ -1039,22 +1043,17 @@ def unicode_allcaps_class(check, gen, rng):
     RUST_UPPER.update({r[0]: r[1] for r in unicode_table({ch for _, w in pairs for ch in w if ord(ch) > 127})})
     if not unicode_tie(check, pairs):
         return
+    for w in fixed:
+        if rust_all_uppercase(w):
+            raise InfraError("the stored identifier %r has no lower-case letter (char::is_lowercase): it is not in the class" % w)
     stats, findings = evaluate(cases)
-    rest, n_class = [], 0
-    for f in findings:
-        if f["kind"] == "violation-input" and f.get("facets") == ["names"]:
-            n_class += 1
-            if n_class == 1:
-                f = shrink_to_enum(f, gen)
-            c = f["case"]
-            witness = {"lang": c["lang"], "config": c["cfg"], "source": c["src"], "what": f["what"]}
-            if not check.known(UNI_ALLCAPS_ID, witness) and n_class == 1:
-                check.notes.append("identifiers without an ASCII lower-case letter (class %s, not listed as an open finding): %s; source: %s"
-                                   % (UNI_ALLCAPS_ID, f["what"], " ".join(c["src"].split())[:400]))
-        else:
-            rest.append(f)
-    check.count("unicode-allcaps-class-requests-with-a-name-differing-from-serde", n_class)
-    report(check, stats, rest)
+    shrunk = 0
+    for i, f in enumerate(findings):
+        if f["kind"] == "violation-input" and shrunk < 5:
+            findings[i], shrunk = shrink_to_enum(f, gen), shrunk + 1
+    check.count("unicode-allcaps-class-requests-with-a-name-differing-from-serde",
+                sum(1 for f in findings if f["kind"] == "violation-input" and "names" in (f.get("facets") or [])))
+    report(check, stats, findings)
 
 
 unicode_allcaps_class.__doc__ = unicode_allcaps_class.__doc__ % UNI_ALLCAPS_ID
